@@ -159,6 +159,27 @@ def m_cyclic(spec, wb, rng):
     return set_cell(wb, "Parameters", a, "Function", "%s+1" % b) and set_cell(wb, "Parameters", b, "Function", "%s*2" % a)
 
 
+def m_cycle_through_aggregation(self_reference):
+    """a circular dependency that passes through a population aggregation: agg0 = SRC_POP_AVG(v, ...) and v = f(agg0); or the
+    aggregation of itself"""
+
+    def f(spec, wb, rng):
+        aggs = [p for p in spec["pars"] if p["name"].startswith("agg") and p.get("function")]
+        if not aggs:
+            return False
+        agg = aggs[0]
+        inner = agg["function"].split("(", 1)[1].rstrip(")").split(",")
+        var = inner[0].strip()
+        if self_reference:
+            rest = ",".join(x.strip() for x in inner[1:])
+            return set_cell(wb, "Parameters", agg["name"], "Function", "%s(%s%s)" % (agg["function"].split("(")[0], agg["name"], ("," + rest) if rest else ""))
+        if var not in [p["name"] for p in spec["pars"]]:
+            return False  # aggregates a compartment: no parameter cycle can be closed
+        return set_cell(wb, "Parameters", var, "Function", "0.1+0*%s" % agg["name"])
+
+    return f
+
+
 def m_duplicate_code(spec, wb, rng):
     ws = sheet(wb, "Parameters")
     h = header(ws)
@@ -494,6 +515,8 @@ FW_MUTATIONS = [
     ("undefined-name-in-function", "reject", m_function(lambda s, p, r: "ghost*2")),
     ("self-referencing-function", "reject", m_function(lambda s, p, r: "%s+1" % p["name"])),
     ("cyclic-functions", "reject", m_cyclic),
+    ("cyclic-functions-through-aggregation", "reject", m_cycle_through_aggregation(False)),
+    ("aggregation-of-itself", "reject", m_cycle_through_aggregation(True)),
     ("unsupported-call-in-function", "reject", m_function(lambda s, p, r: "abs(%s)" % _ords(s)[0])),
     ("attribute-access-in-function", "reject", m_function(lambda s, p, r: "%s.real" % _ords(s)[0])),
     ("syntax-error-in-function", "reject", m_function(lambda s, p, r: "(%s+" % _ords(s)[0])),
@@ -844,6 +867,8 @@ def make_case(tier, seed, index):
     total = len(FW_MUTATIONS) + len(DB_MUTATIONS) + len(PB_MUTATIONS)
     k = j % total
     pf = {"p_targetable": 0.6, "steps": (2, 5), "p_timed": 0.7, "n_junctions": (1, 3), "p_source": 0.8, "n_sinks": (1, 2), "n_aux": (2, 4), "n_pops": (2, 3)}
+    if k < len(FW_MUTATIONS) and "aggregation" in FW_MUTATIONS[k][0]:
+        pf = dict(pf, p_aggregation=1.0)  # the mutation needs a population-aggregation parameter
     spec = gen.gen_spec(rng, pf)
     if k < len(FW_MUTATIONS):
         return {"kind": "framework", "mutation": FW_MUTATIONS[k][0], "spec": spec, "seed": [seed, 18, index]}
